@@ -85,6 +85,7 @@ def build(tier, seed):
             if a >= 1 and a <= 8:
                 gen.append('#[kani::proof] fn blob_padding_a%d() { blob_padding::<%d>() }' % (a, a))
                 hs.append(H('blob_padding_a%d' % a, desc='padding blob ends where the next member starts, align %d, any start offset/size <= 4096' % a, sample={'padding_align': a}, may_unsat=('padding starts unaligned',) if a == 1 else ()))
+        hs.append(H('tracker_never_panics_on_arbitrary_layouts', timeout=1500, weight=3, tier='thorough', desc='StructLayoutTracker call sequence on arbitrary (not C-consistent) layouts: no panic', sample={'sizes': '<= 2^32', 'aligns': '<= 4096 (any, incl. 0 and non powers of two)', 'offsets': '<= 2^35 bits or None'}))
         hs.append(H('layout_for_size_is_largest_pow2_divisor', desc='Layout::for_size_internal', sample='ptr size 4|8, size <= 2^20'))
         hs.append(H('align_to_is_least_multiple', desc='struct_layout::align_to', sample='size <= 2^40, align in {0,1,2,3,8,24,64}'))
         har = open(os.path.join(G, 'harness', 'c02.rs')).read().replace('/*GENERATED*/', '\n    '.join(gen))
@@ -107,7 +108,27 @@ def build(tier, seed):
                             'driver statements (is_packed, already_packed, packed(n)/align(n) decision, call order) as modelled in harness/c02.rs']
         kern.bounds = ['%d alignment/packing tuples (quick: boundary + VERIF_SEED-rotated 28); 2-3 members; member size <= 6*align' % len(allt)]
         return [kern]
+    def tables():
+        mod = rd('codegen/mod.rs'); cx = rd('ir/context.rs'); comp = rd('ir/comp.rs')
+        tfn = extract(mod, r'^    pub\(crate\) fn type_from_named\(', what='utils::type_from_named')
+        isd = extract(cx, r'^    pub\(crate\) fn is_stdint_type\(&self, name: &str\) -> bool \{', what='BindgenContext::is_stdint_type')
+        isp = extract(comp, r'^    pub\(crate\) fn is_packed\(', what='CompInfo::is_packed')
+        alp = extract(comp, r'^    pub\(crate\) fn already_packed\(&self, ctx: &BindgenContext\) -> Option<bool> \{', what='CompInfo::already_packed')
+        h = open(os.path.join(G, 'harness', 'c02_tables.rs')).read()
+        h = h.replace('/*IS_STDINT*/', isd).replace('/*TYPE_FROM_NAMED*/', tfn.replace('pub(crate) fn', 'pub fn')).replace('/*IS_PACKED*/', isp).replace('/*ALREADY_PACKED*/', alp)
+        kk = Kernel(name='tables')
+        kk.files = {'src/lib.rs': h}
+        kk.harnesses = [H('stdint_names_map_to_the_right_primitive', desc='type_from_named: 13 <stdint.h> names -> primitive of same width/sign; agrees with is_stdint_type under both size_t options', sample='13 names x size_t_is_usize'),
+                        H('packed_attribute_and_pragma_pack_are_detected', desc='CompInfo::is_packed on <= 3 fields with symbolic layouts, parent layout known or not', sample={'fields': '<=3', 'parent_layout': 'Some|None'}),
+                        H('already_packed_means_naturally_aligned_offsets', desc='CompInfo::already_packed', sample={'fields': '<=3'})]
+        kk.encoded = [enc('codegen/mod.rs', 'utils::type_from_named', tfn), enc('ir/context.rs', 'BindgenContext::is_stdint_type', isd), enc('ir/comp.rs', 'CompInfo::is_packed', isp), enc('ir/comp.rs', 'CompInfo::already_packed', alp)]
+        kk.stubs = ['primitive_ty: returns the primitive name instead of tokens', 'CompInfo{packed_attr, has_own_virtual_method, fields}: stub field list with optional layouts; each_known_field_layout over it', 'info!: no-op']
+        kk.bounds = ['13 concrete names; <= 3 fields, sizes <= 65536, alignments 1..32']
+        return kk
+    ks = []
     try:
-        return k()
+        ks += k()
     except SliceError as e:
-        return [Kernel(name='layout', error='slice-failed: %s' % e)]
+        ks.append(Kernel(name='layout', error='slice-failed: %s' % e))
+    ks.append(kernel_or_error('tables', tables))
+    return ks
